@@ -37,6 +37,8 @@ pub struct Profile {
     pub big_values: bool,
     /// every fifth big value is 1 - 2.3 MiB (sizes around the 1 MiB chunk constant of the storage layer)
     pub huge_values: bool,
+    /// big values have one of a few exact sizes around 64 KiB multiples (in-place replacement by a value of the same size)
+    pub exact_sizes: bool,
 }
 
 impl Profile {
@@ -48,7 +50,7 @@ impl Profile {
             w_maintain: 0, reads_per_step: 1, exotic_values: false, bad_inputs: true, max_elems: 10,
             variants: vec![Kind::Memory],
             searches_per_step: 0, focus: Focus::Mixed, search_values: false, cross_type: true,
-            binary_values: false, big_values: false, huge_values: false,
+            binary_values: false, big_values: false, huge_values: false, exact_sizes: false,
         };
         let search = |p: &mut Profile, f: Focus| {
             p.searches_per_step = 3; p.focus = f; p.search_values = true; p.reads_per_step = 0;
@@ -90,6 +92,10 @@ impl Profile {
             "churn_index" => { p.w_index = 6; p.w_insert_values = 40; p.w_remove_values = 25; p.w_update_nodes = 10; p.w_insert_nodes = 5; p.w_remove = 5;
                                p.w_insert_edges = 2; p.w_tx = 4; p.w_insert_aliases = 2; p.reads_per_step = 1; p.max_elems = 8; }
             "crash" => { p.w_tx = 0; p.reads_per_step = 0; p.max_elems = 12; p.w_index = 6; }
+            // crash points of queries on values of 16 KiB .. 128 KiB with a few EXACT sizes (64 KiB multiples and their
+            // neighbours): in-place replacement by a value of the same size, removal, reuse of the freed region
+            "crash_big" => { p.w_tx = 0; p.reads_per_step = 0; p.max_elems = 8; p.w_index = 2; p.big_values = true; p.exact_sizes = true;
+                             p.w_insert_values = 30; p.w_update_nodes = 10; p.w_remove_values = 8; p.bad_inputs = false; }
             "elements" => { p.w_remove = 16; p.w_insert_nodes = 14; p.w_insert_edges = 14; p.reads_per_step = 2; }
             _ => {}
         }
@@ -186,7 +192,8 @@ pub struct Gen<'a> {
 impl Gen<'_> {
     fn value(&mut self) -> DbValue {
         if self.p.big_values && self.rng.chance(2, 3) {
-            let n = if self.p.huge_values && self.rng.chance(1, 5) { *self.rng.pick(&[1_048_577usize, 1_200_000, 2_097_153, 2_300_000]) }
+            let n = if self.p.exact_sizes { *self.rng.pick(&[65_535usize, 65_536, 65_536, 65_537, 131_072, 16_384, 100_000]) }
+                    else if self.p.huge_values && self.rng.chance(1, 5) { *self.rng.pick(&[1_048_577usize, 1_200_000, 2_097_153, 2_300_000]) }
                     else { 40_000 + self.rng.below(80_000) as usize };
             let mut x = self.rng.next();
             return DbValue::Bytes((0..n).map(|_| { x = x.wrapping_mul(6364136223846793005).wrapping_add(1442695040888963407); (x >> 56) as u8 }).collect());
